@@ -71,6 +71,13 @@ F: Dict[str, Dict[str, Any]] = {
     'exc-reexport-modattr': {'a': 'class E30(Exception): pass\n', 'b': 'from .a import E30\n__all__=["E30"]\n', 'c': 'from . import a as a30\nclass S30(a30.E30): pass\nclass T30(S30): pass\n'},
     'exc-reexport-init': {'a': 'class E31(KeyError): pass\nclass F31(E31): pass\n', 'p': 'from .a import E31\n__all__=["E31"]\n', 'b': 'from p import E31\nclass S31(E31): pass\n'},
     'doc-inherit':  {'c': 'class A26:\n    def f(self):\n        "inherited doc"\n', 'a': 'from .c import A26\nclass B26(A26):\n    def f(self): pass\n'},
+    # the same module star-imported twice: once from inside an import cycle (while it is half analysed), once from outside
+    'star-twice-cycle': {'a': 'import p.b\nclass S32: pass\nclass T32(S32): pass\n', 'b': 'from p.a import *\nclass U32: pass\n', 'c': 'from p.a import *\nclass W32(S32): pass\nclass X32(T32): pass\n', '__cyclic__': True},
+    'star-twice-cycle-all': {'a': 'import p.b\n__all__ = ["S34"]\nclass S34: pass\n', 'b': 'from p.a import *\n', 'c': 'from p.a import *\nclass W34(S34): pass\n', '__cyclic__': True},
+    # the defining module also binds the re-exported name by an import (optional accelerator idiom); a sibling reaches it through the module
+    'reexport-import-shadow': {'a': 'try:\n    from _speedups33 import Enc33\nexcept ImportError:\n    Enc33 = None\nif Enc33 is None:\n    class Enc33: pass\n',
+                               'b': 'from p.a import Enc33\n__all__=["Enc33"]\n', 'c': 'from p import a as a33\nclass J33(a33.Enc33): pass\n'},
+    'reexport-import-shadow-plain': {'a': 'from ext35 import Enc35\nclass Enc35: pass\n', 'b': 'from p.a import Enc35\n__all__=["Enc35"]\n', 'c': 'import p.a\nclass J35(p.a.Enc35): pass\n'},
     'cycle':        {'a': 'from .b import B17\nclass A17: pass\nclass A17b(B17): pass\n', 'b': 'from .a import A17\nclass B17(A17): pass\n', '__cyclic__': True},
     'cycle3':       {'a': 'from .b import B27\nclass A27(B27): pass\n', 'b': 'from .c import C27\nclass B27(C27): pass\n', 'c': 'from . import a\nclass C27: pass\nclass D27(a.A27): pass\n', '__cyclic__': True},
     'tc-cycle':     {'a': 'from typing import TYPE_CHECKING\nif TYPE_CHECKING:\n    from .b import B18\nclass A18: pass\n', 'b': 'from .a import A18\nclass B18(A18): pass\n', '__cyclic__': True},
@@ -294,6 +301,8 @@ def judge(feats: Sequence[str], skel: str, res: Dict[str, Any]) -> None:
         _, mfields, _ = run_program(cur, skel)
         cyc = program(cur, skel)[1]
         sig = f'schedule-dependent/{"cyclic" if cyc else "acyclic"}/{",".join(mfields[:4])}'
+        if len(cur) > 1:
+            sig += '/combination'       # a combination of features none of which is order dependent alone
         res['violations'].append(core.violation(sig, f'program {list(feats)} on skeleton {skel} (minimal: {cur}) gives different results under different analysis orders; differing: {mfields or fields}',
                                                 {'kind': 'program', 'feats': list(feats), 'skel': skel}))
     if len(res['samples']) < 2 and len(feats) >= 2 and ntr > 1:
